@@ -6,7 +6,9 @@
                                                    main file (block type recorded with the card, path =
                                                    os.path.join(os.path.dirname(top), name), recursion=True for
                                                    sub-files: their read cards join the same queue, their blank lines
-                                                   advance their own block counter)
+                                                   advance their own block counter; the cycle test of commit 2963569:
+                                                   os.path.realpath keys, the lineage dictionary, MalformedInputError
+                                                   before the target is opened: drain_g / read_all_gft / read_all)
      montepy/input_parser/mcnp_input.py            ReadInput.is_read_input (exactly)
      posixpath                                     dirname, join
    Approximated: ReadInput.__init__'s SLY parse (ReadParser + lexer).  [read_name] recognises the class
@@ -346,8 +348,6 @@ Definition read_single (w : nat) (ls : list string) : ra_result :=
 (* ------------------------------------------------------------------ mcnp_problem.py: what is kept of the stream
    parse_input: an Input goes to the collection of its block type, None (a read card) is skipped;
    write_to_file: cells, then surfaces, then data inputs, each in the order of arrival. *)
-Definition tcards (A : Type) := list (nat * A).
-
 Definition block_of {A : Type} (b : nat) (cs : list (nat * A)) : list (nat * A) :=
   filter (fun c => Nat.eqb (fst c) b) cs.
 
